@@ -16,6 +16,7 @@ CONSTANTS
   CancelCalls = {1}
   EnvTClose = TRUE
   OrderedStart = TRUE
+  Eager = FALSE
   WithHist = FALSE
 VIEW ViewNoHist
 INVARIANTS TypeOK FailOnlyWhen AttemptsBounded ErrOnFault ClosedRejects CloseClosesAll QueueBound CapBound NoSpuriousRefusal NoLeak
